@@ -159,8 +159,10 @@ def run(ck, prog):
         "every valid literal (a backslash escapes exactly the next character, one of the five reference escapes); "
         "(R14.8) Lexer::block_comment, evaluated the same way on every string of up to 8 characters over {/, *, other}, "
         "ends every terminated nested comment exactly where the reference does; (R14.9) the scanner entered on a digit "
-        "can return Id. Not decided: code fragments, variable names, line comments, the exact regular language of "
-        "numbers, maximal munch between token classes.")
+        "can return Id; (R14.12) Lexer::line_comment, Lexer::var_name and Lexer::code_fragment, evaluated the same way on "
+        "every short string over an alphabet with their delimiters, CR/LF and non-ASCII letters and digits, end where the "
+        "reference says and return its kind (an error exactly when there is no variable name / no closing `}]`). Not decided: the "
+        "exact regular language of numbers beyond R14.11's bound, maximal munch between token classes.")
     ck.trusted = ["rustc MIR construction and constant evaluation", "unscanny::Scanner API contract",
                   "reference tables in tdq/ref.py transcribed from the TableGen Programmer's Reference"]
     ck.rule("R14.1", "lexer keyword table == reference reserved words, each with its kind; nothing else is a keyword")
@@ -171,6 +173,7 @@ def run(ck, prog):
     ck.rule("R14.10", "identifier and variable-name character classes equal the reference classes")
     ck.rule("R14.9", "digit-leading identifiers: the scanner entered on a digit can produce an identifier")
     ck.rule("R14.11", "the number scanner agrees with the reference on every short digit- or sign-led string")
+    ck.rule("R14.12", "line comment, variable name and code fragment scanners agree with the reference on every short string")
     ck.rule("R14.8", "block comment scanner keeps a nesting depth: `/*` opens, `*/` closes, the token ends at depth 0")
     ck.rule("R14.7", "string literal scanner: transitions required for valid literals (escapes, closing quote)")
     ck.rule("R14.6", "integer lexemes are validated with a full-width unsigned parse (signed only behind a leading '-')")
@@ -351,6 +354,7 @@ def run(ck, prog):
     # R14.8 -----------------------------------------------------------------------
     comment_scanner(ck, prog)
     number_scanner(ck, prog)
+    small_scanners(ck, prog)
 
     # R14.5 -----------------------------------------------------------------------
     dirs = lx["directives"]
@@ -562,6 +566,120 @@ def comment_scanner(ck, prog):
     ck.ob("R14.8", "comment:all-terminated", not bad, "%d terminated (nested) comments end where the reference says" % n,
           msg="Lexer::block_comment disagrees with the nested-comment reference on %d classes of comments" % len(bad))
     ck.floor("R14.8", "terminated comment bodies evaluated", n, 1000)
+
+
+def _char_fn_factory(prog):
+    """(fn item or closure path, char) -> bool | None: a character predicate used as a scanner pattern, evaluated from
+    std's documented classes (ref.CHAR_PREDICATES), from the closure's MIR, or from the lexer's own predicate's MIR"""
+    from .. import mirexec, ref as _ref
+    cache = {}
+
+    def char_fn(fn, ch):
+        k = (fn, ch)
+        if k not in cache:
+            if fn in _ref.CHAR_PREDICATES:
+                cache[k] = _ref.CHAR_PREDICATES[fn](ch)
+            else:
+                body = prog.body(fn)
+                if body is not None and body.parent:           # closure: (env, char)
+                    fr = mirexec.Frame(body, lambda *a: (_ for _ in ()).throw(mirexec.Unsupported("call inside a pattern closure")))
+                    fr.locals[2] = ("int", ord(ch))
+                    out = fr.run(0)
+                    cache[k] = bool(out[1][1]) if out[0] == "return" and out[1] and out[1][0] == "int" else None
+                else:
+                    cache[k] = paths.eval_char_pred(prog, fn, ch)
+        return cache[k]
+    return char_fn
+
+
+def small_scanners(ck, prog):
+    """R14.12: the three one-loop scanners, evaluated from their MIR on every short string (scanner API modelled):
+    Lexer::line_comment (entered after `//`) returns LineComment having consumed exactly the characters before the first
+    CR or LF (TGLexer::SkipBCPLComment); Lexer::var_name (entered after `$`) returns VarName after the maximal
+    [A-Za-z_][A-Za-z0-9_]* and an error when there is none; Lexer::code_fragment (entered after `[{`) returns
+    CodeFragment having consumed the text up to and including the first `}]`, and an error when there is none."""
+    from .. import mirexec
+    char_fn = _char_fn_factory(prog)
+
+    def run(body, w):
+        def std_char(fr, args, t):
+            a = args[0] if args else None
+            n = 0
+            while a is not None and a[0] == "ref" and n < 4:
+                a = fr.read_place(a[1])
+                n += 1
+            if a is None or a[0] != "int":
+                raise mirexec.Unsupported("character predicate on a non-character")
+            v = char_fn(t["f"].get("fn"), chr(a[1]))
+            if v is None:
+                raise mirexec.Unsupported("character predicate %s" % t["f"].get("fn"))
+            return ("int", 1 if v else 0)
+        from .. import ref as _ref
+        extra = {"Lexer::<'a>::error": lambda fr, args, t: ("variant", "Error", -1, [])}
+        for name in _ref.CHAR_PREDICATES:
+            extra[name] = std_char
+        for pth, pb in prog.bodies.items():
+            if pth.startswith("syntax::lexer::") and not pb.parent and pb.argc == 1 and "Lexer" not in pth and \
+                    pb.local_ty(0) == "bool" and pb.local_ty(1) in ("char", "&char"):
+                extra[pth] = std_char
+        model = mirexec.ScannerModel(w, extra=extra, char_fn=char_fn)
+        fr = mirexec.Frame(body, model)
+        fr.locals[1] = ("self", ())
+        out = fr.run(0)
+        if out[0] == "diverge":
+            return "panic", model.pos
+        kind = out[1][1] if out[0] == "return" and out[1] and out[1][0] == "variant" else str(out)
+        return kind, model.pos
+
+    idc = lambda ch: ch.isascii() and (ch.isalnum() or ch == "_")
+    ids = lambda ch: ch.isascii() and (ch.isalpha() or ch == "_")
+
+    def ref_line(w):
+        j = 0
+        while j < len(w) and w[j] not in "\r\n":
+            j += 1
+        return "LineComment", j
+
+    def ref_var(w):
+        if not w or not ids(w[0]):
+            return "Error", None
+        j = 1
+        while j < len(w) and idc(w[j]):
+            j += 1
+        return "VarName", j
+
+    def ref_code(w):
+        i = w.find("}]")
+        return ("CodeFragment", i + 2) if i >= 0 else ("Error", None)
+    thorough = ck.tier == "thorough"
+    specs = [("line_comment", ref_line, ["a", "/", "*", " ", "\r", "\n", "\u00e9", "\u2028"], 5 if thorough else 4),
+             ("var_name", ref_var, ["a", "Z", "_", "0", "9", "$", " ", ".", "-", "\u00e9", "\u0661"], 4 if thorough else 3),
+             ("code_fragment", ref_code, ["}", "]", "{", "[", "a", "\n"], 7 if thorough else 6)]
+    for meth, ref, alphabet, maxlen in specs:
+        b = find_method(prog, meth)
+        ck.anchor(b is not None, "Lexer::%s not found" % meth)
+        n = 0
+        bad = {}
+        for w in [""] + list(_all_strings(alphabet, maxlen)):
+            want = ref(w)
+            try:
+                got = run(b, w)
+            except mirexec.Unsupported as e:
+                ck.anchor(False, "Lexer::%s could not be evaluated (%s)" % (meth, e))
+            n += 1
+            ok = got[0] == want[0] and (want[1] is None or got[1] == want[1])
+            if not ok:
+                sig = (got[0], want[0], 0 if want[1] is None else (got[1] > want[1]) - (got[1] < want[1]))
+                if sig not in bad or len(w) < len(bad[sig][0]):
+                    bad[sig] = (w, want, got)
+        ck.count(n)
+        for sig, (w, want, got) in sorted(bad.items(), key=str):
+            ck.ob("R14.12", "%s:%s" % (meth, w.encode("unicode_escape").decode()), False,
+                  msg="Lexer::%s on %r (after the opener): the reference gives %s%s, the scanner returns %s after %d characters" % (
+                      meth, w, want[0], "" if want[1] is None else " after %d characters" % want[1], got[0], got[1]))
+        ck.ob("R14.12", "%s:all" % meth, not bad, "%d strings scanned like the reference" % n,
+              msg="Lexer::%s disagrees with the reference on %d classes of inputs" % (meth, len(bad)))
+        ck.floor("R14.12", "%s strings evaluated" % meth, n, 300)
 
 
 def number_scanner(ck, prog):
